@@ -51,7 +51,7 @@ type refSeg struct {
 type refPath struct {
 	Segs  []refSeg
 	Kinds string // "U", "UD", "UCD", …
-	Join  string // "", "core", "shortcut", "peer", "onpath"
+	Join  string // "", "core", "shortcut", "peer", "peer-direct", "onpath"
 	Ifs   []refIf
 	// Expiry is the earliest hop-field expiry over the hop fields used.
 	Expiry time.Time
@@ -375,7 +375,11 @@ func enumerate(src, dst addr.IA, ups, cores, downs []*seg.PathSegment, foreign *
 							if p.Peer == de.Local && q.Peer == ue.Local &&
 								p.PeerInterface == q.HopField.ConsIngress &&
 								q.PeerInterface == p.HopField.ConsIngress {
-								out = append(out, finish("UD", "peer", against('U', u, i, pi), along(d, j, qi)))
+								jn := "peer"
+								if i == nu-1 || j == nd-1 {
+									jn = "peer-direct" // src or dst is itself an end of the peering link
+								}
+								out = append(out, finish("UD", jn, against('U', u, i, pi), along(d, j, qi)))
 							}
 						}
 					}
